@@ -10,9 +10,9 @@ import (
 
 // RaceReport is one "WARNING: DATA RACE" block.
 type RaceReport struct {
-	Text   string
-	Frames [2]string // innermost scipipe frame of each of the two stacks ("" = none)
-	Sig    string
+	Text    string
+	Frames  [2]string // innermost scipipe frame of each of the two stacks ("" = none)
+	Sig     string
 	Harness bool // both stacks lie entirely in harness code
 }
 
